@@ -462,6 +462,36 @@ def csv_rows(text, dialect):
         return None
 
 
+def xml_events(data):
+    """the element structure expat sees, in the notation of the driver (an element without content
+    is `e:`; ledger never writes <a></a>)"""
+    import xml.parsers.expat
+    ev = []
+    p = xml.parsers.expat.ParserCreate()
+    last_start = [None]
+
+    def start(name, attrs):
+        ev.append(['o', name])
+        last_start[0] = len(ev) - 1
+
+    def end(name):
+        if last_start[0] == len(ev) - 1 and ev[-1][0] == 'o':
+            ev[-1][0] = 'e'
+        else:
+            ev.append(['c', name])
+        last_start[0] = None
+
+    def chars(text):
+        last_start[0] = None
+
+    p.StartElementHandler, p.EndElementHandler, p.CharacterDataHandler = start, end, chars
+    try:
+        p.Parse(data, True)
+    except xml.parsers.expat.ExpatError:
+        return 'none'
+    return 'nested ' + ' '.join('%s:%s' % (k, n.encode().hex() or '-') for k, n in ev)
+
+
 def show_rows(rows):
     if rows is None:
         return 'none'
@@ -850,10 +880,12 @@ def run(ctx, n_override=None):
         lines.append(build_case(rec['id'], rec['path'], rec['fmt'], rec['xs'], rec['shown'], rows))
         # reader specifications against python's readers, on ledger's real output
         outs = rec['outs']
-        for what, name in (('rfc', 'csvd'), ('bs', 'csvd'), ('rfc', 'csv'), ('lisp', 'emacs')):
+        for what, name in (('rfc', 'csvd'), ('bs', 'csvd'), ('rfc', 'csv'), ('lisp', 'emacs'), ('xmltags', 'xml')):
             if what == 'rfc' and name == 'csv' and rec['fkind'] != 'all-rfc':
                 continue
             data = outs[name][1]
+            if what == 'xmltags':
+                data = data.split(b'\n', 1)[1] if data.startswith(b'<?xml') else data    # without the declaration
             reader_lines.append(lib.sx(['read', what, rec['id'], data]))
             reader_meta.append((rec, what, name, data))
     out = lib.run_model('C18', lines + reader_lines)
@@ -931,6 +963,8 @@ def run(ctx, n_override=None):
         got = line.split(' read ', 1)[1] if ' read ' in line else line
         if what in ('rfc', 'bs'):
             py = show_rows(csv_rows(data.decode('latin-1'), what))
+        elif what == 'xmltags':
+            py = xml_events(data)
         else:
             try:
                 forms = sexp_read(data.decode('latin-1'))
